@@ -9,13 +9,18 @@
 #include <cstring>
 
 #include "../rt/sim.h"
+#include <vector>
+
 #include "scenarios.h"
 
+constexpr size_t kSwCap = 1u << 16;
 struct Shm {
   sim::Result res;
   long observed[16];
   int counter;
   int done;
+  volatile size_t n_sw;
+  sim::Switch sw[kSwCap];
 };
 static Shm* shm;
 static const sc::Scenario* cur;
@@ -57,8 +62,13 @@ int main(int argc, char** argv) {
   for (int si = 0; si < sc::n_scenarios(); ++si) {
     cur = &sc::scenarios()[si];
     Tally ty;
-    unsigned long long h1 = 0, h2 = 0;
-    for (int rep = 0; rep < 2; ++rep) {
+    unsigned long long h1 = 0, h2 = 0, h3 = 0;
+    // pass 0 and 1: the same seeds twice (determinism); pass 2: every run of pass 0 again from its
+    // recorded switch list under the `explicit` strategy (replay)
+    static std::vector<std::vector<sim::Switch>> recorded;
+    recorded.assign((size_t)seeds + 1, {});
+    int replay_truncated = 0;
+    for (int rep = 0; rep < 3; ++rep) {
       unsigned long long hh = 0;
       Tally t2;
       for (int seed = 1; seed <= seeds; ++seed) {
@@ -76,6 +86,14 @@ int main(int argc, char** argv) {
           cfg.pct_k = 200;
           cfg.fair_after = 20000;
           cfg.max_events = 400000;
+          cfg.sw_buf = shm->sw;
+          cfg.sw_cap = kSwCap;
+          cfg.sw_count = &shm->n_sw;
+          if (rep == 2) {
+            cfg.strategy = sim::S_EXPLICIT;
+            cfg.explicit_sw = recorded[(size_t)seed].data();
+            cfg.n_explicit = recorded[(size_t)seed].size();
+          }
           sim::run(cfg, body, nullptr, shm->res);
           for (int t = 0; t < 16; ++t) shm->observed[t] = sc::observed_of(t);
           shm->counter = sc::final_counter();
@@ -85,6 +103,10 @@ int main(int argc, char** argv) {
         int st = 0;
         waitpid(pid, &st, 0);
         const sim::Result& r = shm->res;
+        if (rep == 0) {
+          if (shm->n_sw >= kSwCap || r.fair_mode_entered) replay_truncated++, recorded[(size_t)seed].clear();
+          else recorded[(size_t)seed].assign(shm->sw, shm->sw + shm->n_sw);
+        }
         t2.runs++;
         if (!shm->done && !r.deadlock && !r.budget_exhausted && !r.unsupported) t2.crashed++;
         bool only_stdlib = r.races_total > 0;
@@ -103,6 +125,7 @@ int main(int argc, char** argv) {
         if (r.budget_exhausted) t2.budget++;
         if (r.fair_mode_entered) t2.fair++;
         if (r.unsupported) t2.unsupported++;
+        if (rep == 2 && recorded[(size_t)seed].empty()) continue;  // not replayable (fair mode / very long)
         hh = hh * 1000003ull + r.log_hash + r.races_total + (unsigned long long)r.deadlock;
         int nt = 2 + seed % 3;
         const char* n = cur->name;
@@ -136,13 +159,14 @@ int main(int argc, char** argv) {
           if (!strcmp(n, "check_then_act") && shm->counter != nt) t2.lost_update++;
         }
       }
-      if (rep == 0) { h1 = hh; ty = t2; } else h2 = hh;
+      if (rep == 0) { h1 = hh; ty = t2; } else if (rep == 1) h2 = hh; else h3 = hh;
     }
     const char* n = cur->name;
     bool ok = true;
     const char* why = "";
     auto need = [&](bool c, const char* w) { if (!c && ok) { ok = false; why = w; } };
     need(h1 == h2, "not deterministic");
+    if (!replay_truncated) need(h1 == h3, "replay from the recorded switch list differs");
     need(ty.unsupported == 0, "unsupported primitive");
     need(ty.crashed == 0, "crashed");
     bool expect_race = !strcmp(n, "plain_race") || !strcmp(n, "publish_relaxed") || !strcmp(n, "publish_early") || !strcmp(n, "rwlock_bad") || !strcmp(n, "fence_missing") || !strcmp(n, "spawn_race") || !strcmp(n, "detach");
